@@ -241,4 +241,18 @@ def extras_assumptions(results):
         'machine integers are NOT treated as mathematical: every u64/usize/i64 operation is checked for overflow; usize is assumed 64-bit',
         'concurrency, lock poisoning and OS behaviour are outside the contracts',
     ]
+    fired = set()
+    watched = []
+    for r in results:
+        fired.update(k for k, v in r.gen.rules_fired.items() if v)
+        watched += sorted(r.gen.watched.keys())
+    if any(k.startswith('R30') for k in fired):
+        out.append('async port (rule R30, tool/erase.py): an await point is treated as a plain sequential call - one task, no interleaving between the steps of one operation; '
+                   'a boxed future performs its call atomically at the poll that returns Ready (prelude/asyncport.rs); wakers / Context are scheduling and are dropped')
+    if 'R5' in fired:
+        out.append('dyn FileSystem behind a VfsPath is only known through the trait contract TC (World, rule R5): proved for MemoryFS, AltrootFS and the serving side of OverlayFS, assumed for PhysicalFS / EmbeddedFS')
+    if 'R4' in fired:
+        out.append('MemoryFS lock cell is store-passing (rule R4): lock acquisition, poisoning and Arc identity are dropped')
+    if watched:
+        out.append('functions outside the verifier\'s reach, monitored by source hash only and decided by the bounded oracles when they change: ' + '; '.join(sorted(set(watched))))
     return out
